@@ -124,9 +124,9 @@ theorem footer_ne_empty {e : OEvent} (hs : footerShape e) : e.footer ≠ "" := b
   rw [footerText_toList] at this
   simp at this
 
-/-- C01 classification, Oscar: the text rendered for a specification of the grammar is observed as that specification -/
-theorem oscar_classification (F : OscarSpec) (hg : grammarOscar F = true) :
-    obsOscar (Proto.fileOfText (oscarText F)) F = true := by
+/-- the lines of a rendered Oscar text -/
+theorem fileOfText_oscarText (F : OscarSpec) (hg : grammarOscar F = true) :
+    Proto.fileOfText (oscarText F) = { lines := (oscarLinesText F).map analyse, trailingNL := F.trailingNL } := by
   obtain ⟨hc, h2, h3, n2, n3, e3, hev⟩ := grammarOscar_unpack hg
   have hne : oscarLinesText F ≠ [] := by simp [oscarLinesText]
   have hnl : ∀ l ∈ oscarLinesText F, '\n' ∉ l.toList := by
@@ -149,7 +149,13 @@ theorem oscar_classification (F : OscarSpec) (hg : grammarOscar F = true) :
         simp only [this, List.getLast_concat]
       rw [hg]; exact hf
   unfold oscarText
-  rw [fileOfText_textOfLines _ _ hne hnl hlast]
+  exact fileOfText_textOfLines _ _ hne hnl hlast
+
+/-- C01 classification, Oscar: the text rendered for a specification of the grammar is observed as that specification -/
+theorem oscar_classification (F : OscarSpec) (hg : grammarOscar F = true) :
+    obsOscar (Proto.fileOfText (oscarText F)) F = true := by
+  obtain ⟨hc, h2, h3, n2, n3, e3, hev⟩ := grammarOscar_unpack hg
+  rw [fileOfText_oscarText F hg]
   simp only [obsOscar, oscarLinesText, List.cons_append, List.nil_append, List.map_cons, beq_self_eq_true, Bool.true_and,
     Bool.and_eq_true, beq_iff_eq]
   exact ⟨⟨⟨⟨⟨head_line F hc, h2⟩, h3⟩, rfl⟩, rfl⟩, obsBody_events F.fmt (attrsOf F) F.events hev⟩
